@@ -12,7 +12,9 @@ R: every exported case on the real obikmer code: NewKmerMap[Uint64|Uint128|Uint2
    MakeDeBruijnGraph/Push/Weight (all 4^k k-mers)/Len/Nexts/Heads/HasCycle/HaviestPath/LongestConsensus,
    sequences pushed in both orders; the heaviest path is judged by weight and walk validity (ties allowed).
 T: seeded random inputs (k up to 31 / 64, sequences up to hundreds of bases, read sets with errors,
-   repeats, ambiguity codes); KmerTrace.tla re-evaluates the definitions on every logged observation.
+   repeats, ambiguity codes), plus obiconsensus.BuildConsensus on read sets (the consensus must be a
+   heaviest walk of the graph of the k-mer size it reports); KmerTrace.tla re-evaluates the definitions
+   on every logged observation.
 """
 import collections
 import json
@@ -36,6 +38,7 @@ NEED_FAMILIES = (
     "idx/short", "idx/eqk", "idx/kplus", "idx/iupac", "idx/rna", "idx/lowcomplexity", "idx/long",
     "four/tiny", "four/repeats", "four/rna", "four/long",
     "graph/single", "graph/short", "graph/smallk", "graph/repeat", "graph/iupac", "graph/reads",
+    "cons/reads", "cons/repeat",
 )
 
 
@@ -68,6 +71,10 @@ def describe(ev, why):
                    (" ; PANIC " + ev["panmsg"]) if ev["pan"] else ""))
     if ev["kind"] == "four":
         return "Count4Mer(%s) -> %s%s" % (e["s"][:120], ev["tab"][:12], (" ; PANIC " + ev["panmsg"]) if ev["pan"] else "")
+    if ev["kind"] == "cons":
+        return ("obiconsensus.BuildConsensus(sequences=%s counts=%s, kmer_size=%d, min_cov=0) -> k-mer size used %d, consensus=%s%s"
+                % ([x[:80] for x in e["S"]], ev["C"], ev["k0"], ev["kused"], e["cons"][:160],
+                   (" ; PANIC " + ev["panmsg"]) if ev["pan"] else ""))
     return ("k=%d sequences=%s counts=%s: Len=%d HasCycle=%d HaviestPath=%d nodes consensus=%s%s"
             % (ev["k"], [x[:80] for x in e["S"]], ev["C"], ev["len"], ev["cyc"], len(ev["path"]), e["cons"][:120],
                (" ; PANIC " + ev["panmsg"]) if ev["pan"] else ""))
@@ -151,6 +158,9 @@ def main(ctx):
     ctx.expect_vacuity("trace index events on full-width words (2k = bits)",
                        sum(1 for e in events if e["kind"] == "idx" and 2 * e["k"] == e["bits"]))
     ctx.expect_vacuity("trace index events with k > 32", sum(1 for e in events if e["kind"] == "idx" and e["k"] > 32))
+    cons = [e for e in events if e["kind"] == "cons"]
+    ctx.expect_vacuity("BuildConsensus events that returned a consensus", sum(1 for e in cons if e["cons"]))
+    ctx.expect_vacuity("BuildConsensus events where the k-mer size had to be increased", sum(1 for e in cons if e["kused"] > e["k0"]))
     ctx.extra["trace_families"] = dict(fam)
     ctx.extra["trace_max_k_graph"] = max(e["k"] for e in g)
     ctx.extra["trace_max_k_index"] = max(e["k"] for e in events if e["kind"] == "idx")
